@@ -1,12 +1,29 @@
-// schedfacts extracts, from the CURRENT server/sched.go, the two behaviours the scheduler model
-// takes as parameters (lean/OllamaVerif/Model/Sched.lean `Variant`):
+// schedfacts extracts, from the CURRENT server/sched.go, the structural facts the scheduler model
+// (lean/OllamaVerif/Model/Sched.lean) relies on and that cannot be obtained by running the code
+// (atomicity of lock-protected regions), plus a SYNTACTIC OPINION on the two behaviours the model takes
+// as parameters (`Variant`), which the check combines with a behavioural probe of the real scheduler on
+// the F12a / F12b witness schedules (vlib/checks/sched_common.py):
 //
-//	guardDelete  – in processCompleted every `delete(s.loaded, …)` is guarded by an enclosing
-//	               `if s.loaded[…] == runner`
-//	recheckGrant – useLoadedRunner returns early when `runner.llama == nil` before it increments
-//	               refCount, AND processPending `continue`s when useLoadedRunner reports false
+//	guardDeleteAst  guarded | unguarded | unknown
+//	    guarded    every `delete(s.loaded, K)` of the file is dominated, inside one critical section of
+//	               loadedMu, by a condition that IMPLIES `s.loaded[K] == X` with K = X.modelPath, X the runner
+//	               being shut down: `if s.loaded[K] == X`, operands in either order, as one conjunct of a `&&`,
+//	               through a local (`cur := s.loaded[K]`, `cur, ok := s.loaded[K]`, `key := X.modelPath`), in the
+//	               else-branch of / after an early exit on the negation (`if s.loaded[K] != X { …; continue }`)
+//	    unguarded  some delete is not dominated by ANY condition that mentions `s.loaded` (upstream's form)
+//	    unknown    anything else (the behavioural probe decides)
+//	recheckGrantAst present | absent | unknown
+//	    present    useLoadedRunner increments refCount only where `X.llama != nil` is implied (early `return false`
+//	               on `X.llama == nil`, either operand order, or an enclosing `if X.llama != nil`) AND processPending
+//	               `continue`s when useLoadedRunner reports false (`if !p.useLoadedRunner(…)`, or through a local)
+//	    absent     no condition on `.llama` precedes the increment, or the caller discards the result
+//	    unknown    anything else
 //
-// plus the channel capacities and timing constants the model relies on.  go/ast only.
+// Before any matcher runs the functions are NORMALISED so that semantics-preserving rewrites do not change the
+// answers: receivers renamed to their canonical names, calls (in statement position) of helper functions that
+// are new in the file inlined (two levels, parameters substituted, `defer`s moved to the end of the inlined
+// body), the names of the locals the matchers talk about taken from the code (the variable bound by
+// `case X := <-s.expiredCh`, the victim variable of the make-room block).  go/ast only.
 // usage: SCHED_GO=/repo/server/sched.go go run main.go
 package main
 
@@ -15,105 +32,597 @@ import (
 	"go/ast"
 	"go/parser"
 	"go/printer"
+	"go/scanner"
 	"go/token"
 	"os"
+	"sort"
 	"strings"
 )
 
 var fset = token.NewFileSet()
 
 func src(n ast.Node) string {
+	if n == nil {
+		return ""
+	}
 	var sb strings.Builder
 	printer.Fprint(&sb, fset, n)
 	return sb.String()
 }
 
-func funcDecl(f *ast.File, name string) *ast.FuncDecl {
-	for _, d := range f.Decls {
-		if fd, ok := d.(*ast.FuncDecl); ok && fd.Name.Name == name {
-			return fd
+// the functions of sched.go the model's actions are anchored in: never inlined (the matchers look for calls of them)
+var anchors = map[string]bool{
+	"InitScheduler": true, "GetRunner": true, "Run": true, "processPending": true, "processCompleted": true,
+	"useLoadedRunner": true, "load": true, "updateFreeSpace": true, "filterGPUsWithoutLoadingModels": true,
+	"unload": true, "needsReload": true, "waitForVRAMRecovery": true, "Len": true, "Swap": true, "Less": true,
+	"pickBestFullFitByLibrary": true, "pickBestPartialFitByLibrary": true, "findRunnerToUnload": true,
+	"unloadAllRunners": true, "expireRunner": true, "maybeFindCPURunnerToUnload": true,
+}
+
+var canonRecv = map[string]string{"Scheduler": "s", "LlmRequest": "pending", "runnerRef": "runner"}
+
+var funcs = map[string]*ast.FuncDecl{}
+
+// ---------------------------------------------------------------------------------------------
+// token-level identifier substitution + re-parse
+
+func substitute(text string, sub map[string]string) string {
+	if len(sub) == 0 {
+		return text
+	}
+	var s scanner.Scanner
+	file := token.NewFileSet().AddFile("", -1, len(text))
+	s.Init(file, []byte(text), nil, scanner.ScanComments)
+	var sb strings.Builder
+	last := 0
+	prev := token.ILLEGAL
+	for {
+		pos, tok, lit := s.Scan()
+		if tok == token.EOF {
+			break
+		}
+		off := file.Offset(pos)
+		if tok == token.IDENT && prev != token.PERIOD {
+			if to, ok := sub[lit]; ok {
+				sb.WriteString(text[last:off])
+				sb.WriteString(to)
+				last = off + len(lit)
+			}
+		}
+		if tok != token.COMMENT {
+			prev = tok
+		}
+	}
+	sb.WriteString(text[last:])
+	return sb.String()
+}
+
+func parseBody(text string) *ast.BlockStmt {
+	f, err := parser.ParseFile(fset, "", "package p\nfunc _() "+text, 0)
+	if err != nil {
+		return nil
+	}
+	return f.Decls[0].(*ast.FuncDecl).Body
+}
+
+func recvOf(fd *ast.FuncDecl) (name, typ string) {
+	if fd.Recv == nil || len(fd.Recv.List) == 0 {
+		return "", ""
+	}
+	f := fd.Recv.List[0]
+	t := f.Type
+	if st, ok := t.(*ast.StarExpr); ok {
+		t = st.X
+	}
+	if id, ok := t.(*ast.Ident); ok {
+		typ = id.Name
+	}
+	if len(f.Names) > 0 {
+		name = f.Names[0].Name
+	}
+	return
+}
+
+// simple: an expression that may be substituted for a parameter (evaluating it twice changes nothing)
+func simple(e ast.Expr) bool {
+	switch x := e.(type) {
+	case *ast.Ident, *ast.BasicLit:
+		return true
+	case *ast.SelectorExpr:
+		return simple(x.X)
+	case *ast.ParenExpr:
+		return simple(x.X)
+	case *ast.UnaryExpr:
+		return x.Op == token.AND && simple(x.X)
+	}
+	return false
+}
+
+// callee returns the helper a statement-level call refers to (nil: not a call of a helper defined in the file)
+func callee(ce *ast.CallExpr) (*ast.FuncDecl, ast.Expr) {
+	switch f := ce.Fun.(type) {
+	case *ast.Ident:
+		if fd := funcs[f.Name]; fd != nil && fd.Recv == nil && !anchors[f.Name] {
+			return fd, nil
+		}
+	case *ast.SelectorExpr:
+		if fd := funcs[f.Sel.Name]; fd != nil && fd.Recv != nil && !anchors[f.Sel.Name] && simple(f.X) {
+			return fd, f.X
+		}
+	}
+	return nil, nil
+}
+
+var absorbed = map[string]bool{} // helpers that were inlined somewhere
+
+// expand returns the statements a statement-level call of a helper stands for, or nil
+func expand(ce *ast.CallExpr, depth int) []ast.Stmt {
+	fd, recv := callee(ce)
+	if fd == nil || fd.Body == nil || depth <= 0 {
+		return nil
+	}
+	sub := map[string]string{}
+	if recv != nil {
+		if n, _ := recvOf(fd); n != "" && n != "_" {
+			sub[n] = src(recv)
+		}
+	}
+	i := 0
+	for _, p := range fd.Type.Params.List {
+		for _, n := range p.Names {
+			if i >= len(ce.Args) || !simple(ce.Args[i]) {
+				return nil
+			}
+			if n.Name != "_" {
+				sub[n.Name] = src(ce.Args[i])
+			}
+			i++
+		}
+	}
+	if i != len(ce.Args) {
+		return nil
+	}
+	body := parseBody(substitute(src(fd.Body), sub))
+	if body == nil {
+		return nil
+	}
+	absorbed[fd.Name.Name] = true
+	// top-level defers run when the helper returns: move them to the end (last deferred first)
+	var list, deferred []ast.Stmt
+	for _, st := range body.List {
+		if d, ok := st.(*ast.DeferStmt); ok {
+			deferred = append([]ast.Stmt{&ast.ExprStmt{X: d.Call}}, deferred...)
+			continue
+		}
+		list = append(list, st)
+	}
+	list = append(list, deferred...)
+	return inlineList(list, depth-1)
+}
+
+func inlineList(list []ast.Stmt, depth int) []ast.Stmt {
+	var out []ast.Stmt
+	for _, st := range list {
+		if es, ok := st.(*ast.ExprStmt); ok {
+			if ce, ok := es.X.(*ast.CallExpr); ok {
+				if ex := expand(ce, depth); ex != nil {
+					out = append(out, ex...)
+					continue
+				}
+			}
+		}
+		inlineIn(st, depth)
+		out = append(out, st)
+	}
+	return out
+}
+
+// inlineIn rewrites every statement list below n in place
+func inlineIn(n ast.Node, depth int) {
+	ast.Inspect(n, func(m ast.Node) bool {
+		switch x := m.(type) {
+		case *ast.BlockStmt:
+			x.List = inlineList(x.List, depth)
+			return false
+		case *ast.CaseClause:
+			x.Body = inlineList(x.Body, depth)
+			return false
+		case *ast.CommClause:
+			x.Body = inlineList(x.Body, depth)
+			return false
+		}
+		return true
+	})
+}
+
+// normalised copy of a function: canonical receiver name, helpers inlined
+func normalise(fd *ast.FuncDecl) *ast.FuncDecl {
+	if fd == nil || fd.Body == nil {
+		return fd
+	}
+	sub := map[string]string{}
+	if n, t := recvOf(fd); n != "" && canonRecv[t] != "" && n != canonRecv[t] {
+		sub[n] = canonRecv[t]
+	}
+	body := parseBody(substitute(src(fd.Body), sub))
+	if body == nil {
+		return fd
+	}
+	body.List = inlineList(body.List, 2)
+	cp := *fd
+	cp.Body = body
+	return &cp
+}
+
+// ---------------------------------------------------------------------------------------------
+// a small "what does this condition imply" engine
+
+type fact struct {
+	eq   bool
+	a, b string
+}
+
+type env struct {
+	facts   []fact
+	alias   map[string]string // local -> the expression it was defined from
+	sawCond map[string]bool   // substrings of interest mentioned by an enclosing / dominating condition
+}
+
+func (e env) clone() env {
+	n := env{facts: append([]fact{}, e.facts...), alias: map[string]string{}, sawCond: map[string]bool{}}
+	for k, v := range e.alias {
+		n.alias[k] = v
+	}
+	for k, v := range e.sawCond {
+		n.sawCond[k] = v
+	}
+	return n
+}
+
+func unparen(x ast.Expr) ast.Expr {
+	for {
+		p, ok := x.(*ast.ParenExpr)
+		if !ok {
+			return x
+		}
+		x = p.X
+	}
+}
+
+// norm prints an expression with aliased locals replaced by their definitions
+func (e env) norm(x ast.Expr) string {
+	return substitute(src(unparen(x)), e.alias)
+}
+
+// implied: the facts that hold when cond evaluates to `val`
+func (e env) implied(cond ast.Expr, val bool) []fact {
+	cond = unparen(cond)
+	switch x := cond.(type) {
+	case *ast.UnaryExpr:
+		if x.Op == token.NOT {
+			return e.implied(x.X, !val)
+		}
+	case *ast.BinaryExpr:
+		switch {
+		case x.Op == token.LAND && val, x.Op == token.LOR && !val:
+			return append(e.implied(x.X, val), e.implied(x.Y, val)...)
+		case x.Op == token.EQL, x.Op == token.NEQ:
+			return []fact{{eq: (x.Op == token.EQL) == val, a: e.norm(x.X), b: e.norm(x.Y)}}
 		}
 	}
 	return nil
 }
 
-// guardedDeletes: number of delete(s.loaded, …) calls and how many sit inside an
-// `if s.loaded[X] == runner` with the same key expression X
-func guardedDeletes(fd *ast.FuncDecl) (total, guarded int) {
-	var walk func(n ast.Node, guards []string)
-	walk = func(n ast.Node, guards []string) {
-		ast.Inspect(n, func(m ast.Node) bool {
-			switch x := m.(type) {
-			case *ast.IfStmt:
-				g := guards
-				if be, ok := x.Cond.(*ast.BinaryExpr); ok && be.Op == token.EQL {
-					l, r := src(be.X), src(be.Y)
-					if strings.HasPrefix(l, "s.loaded[") && r == "runner" {
-						g = append(append([]string{}, guards...), strings.TrimSuffix(strings.TrimPrefix(l, "s.loaded["), "]"))
-					}
-				}
-				if x.Init != nil {
-					walk(x.Init, guards)
-				}
-				walk(x.Body, g)
-				if x.Else != nil {
-					walk(x.Else, guards)
-				}
-				return false
-			case *ast.CallExpr:
-				if id, ok := x.Fun.(*ast.Ident); ok && id.Name == "delete" && len(x.Args) == 2 && src(x.Args[0]) == "s.loaded" {
-					total++
-					key := src(x.Args[1])
-					for _, g := range guards {
-						if g == key {
-							guarded++
-							break
-						}
-					}
-				}
-			}
-			return true
-		})
+func (e *env) note(cond ast.Expr) {
+	t := e.norm(cond)
+	for _, k := range []string{"s.loaded", ".llama"} {
+		if strings.Contains(t, k) {
+			e.sawCond[k] = true
+		}
 	}
-	walk(fd.Body, nil)
-	return
 }
 
-// recheckInUse: a top-level `if runner.llama == nil { return false }` precedes `runner.refCount++`
-func recheckInUse(fd *ast.FuncDecl) bool {
-	seenCheck := false
-	for _, st := range fd.Body.List {
-		switch x := st.(type) {
-		case *ast.IfStmt:
-			if be, ok := x.Cond.(*ast.BinaryExpr); ok && be.Op == token.EQL && src(be.X) == "runner.llama" && src(be.Y) == "nil" {
-				if len(x.Body.List) > 0 {
-					if rs, ok := x.Body.List[len(x.Body.List)-1].(*ast.ReturnStmt); ok && len(rs.Results) == 1 && src(rs.Results[0]) == "false" {
-						seenCheck = true
-					}
-				}
-			}
-		case *ast.IncDecStmt:
-			if src(x.X) == "runner.refCount" && x.Tok == token.INC {
-				return seenCheck
-			}
+func (e env) has(eq bool, a, b string) bool {
+	for _, f := range e.facts {
+		if f.eq == eq && (f.a == a && f.b == b || f.a == b && f.b == a) {
+			return true
 		}
 	}
 	return false
 }
 
-// callerRetries: processPending contains `if !pending.useLoadedRunner(…) { …; continue }`
-func callerRetries(fd *ast.FuncDecl) bool {
-	found := false
-	ast.Inspect(fd.Body, func(n ast.Node) bool {
-		if is, ok := n.(*ast.IfStmt); ok {
-			if ue, ok := is.Cond.(*ast.UnaryExpr); ok && ue.Op == token.NOT {
-				if ce, ok := ue.X.(*ast.CallExpr); ok && strings.HasSuffix(src(ce.Fun), ".useLoadedRunner") {
-					if n := len(is.Body.List); n > 0 {
-						if bs, ok := is.Body.List[n-1].(*ast.BranchStmt); ok && bs.Tok == token.CONTINUE {
-							found = true
+func terminates(b *ast.BlockStmt) bool {
+	if b == nil || len(b.List) == 0 {
+		return false
+	}
+	switch x := b.List[len(b.List)-1].(type) {
+	case *ast.ReturnStmt:
+		return true
+	case *ast.BranchStmt:
+		return x.Tok == token.CONTINUE || x.Tok == token.BREAK || x.Tok == token.GOTO
+	case *ast.ExprStmt:
+		if ce, ok := x.X.(*ast.CallExpr); ok {
+			return src(ce.Fun) == "panic"
+		}
+	}
+	return false
+}
+
+// walk visits the statements in execution order with the facts known at each; visit is called for every simple statement
+func walk(list []ast.Stmt, e env, visit func(st ast.Stmt, e env)) env {
+	for _, st := range list {
+		switch x := st.(type) {
+		case *ast.IfStmt:
+			ie := e.clone()
+			if x.Init != nil {
+				ie = walk([]ast.Stmt{x.Init}, ie, visit)
+			}
+			te := ie.clone()
+			te.note(x.Cond)
+			te.facts = append(te.facts, ie.implied(x.Cond, true)...)
+			walk(x.Body.List, te, visit)
+			ee := ie.clone()
+			ee.note(x.Cond)
+			ee.facts = append(ee.facts, ie.implied(x.Cond, false)...)
+			switch el := x.Else.(type) {
+			case *ast.BlockStmt:
+				walk(el.List, ee, visit)
+			case *ast.IfStmt:
+				walk([]ast.Stmt{el}, ee, visit)
+			}
+			if x.Else == nil && terminates(x.Body) {
+				// early exit: the rest of the block runs only when the condition was false
+				e.note(x.Cond)
+				e.facts = append(e.facts, ie.implied(x.Cond, false)...)
+				for k, v := range ie.alias {
+					if _, ok := e.alias[k]; !ok && x.Init == nil {
+						e.alias[k] = v
+					}
+				}
+			}
+		case *ast.AssignStmt:
+			visit(st, e)
+			for i, l := range x.Lhs {
+				id, ok := l.(*ast.Ident)
+				if !ok {
+					if strings.HasPrefix(src(l), "s.loaded[") {
+						e.facts = nil // the map changed
+					}
+					continue
+				}
+				delete(e.alias, id.Name)
+				var rhs ast.Expr
+				if len(x.Rhs) == len(x.Lhs) {
+					rhs = x.Rhs[i]
+				} else if i == 0 && len(x.Rhs) == 1 {
+					rhs = x.Rhs[0] // v, ok := s.loaded[k]
+				}
+				if rhs != nil && x.Tok == token.DEFINE {
+					switch r := unparen(rhs).(type) {
+					case *ast.IndexExpr, *ast.SelectorExpr, *ast.Ident:
+						if id.Name != "_" {
+							e.alias[id.Name] = e.norm(r)
 						}
 					}
 				}
+			}
+		case *ast.BlockStmt:
+			e = walk(x.List, e, visit)
+		case *ast.ForStmt:
+			walk(x.Body.List, e.clone(), visit)
+		case *ast.RangeStmt:
+			walk(x.Body.List, e.clone(), visit)
+		case *ast.SwitchStmt:
+			for _, c := range x.Body.List {
+				walk(c.(*ast.CaseClause).Body, e.clone(), visit)
+			}
+		case *ast.TypeSwitchStmt:
+			for _, c := range x.Body.List {
+				walk(c.(*ast.CaseClause).Body, e.clone(), visit)
+			}
+		case *ast.SelectStmt:
+			for _, c := range x.Body.List {
+				cc := c.(*ast.CommClause)
+				ce := e.clone()
+				if cc.Comm != nil {
+					ce = walk([]ast.Stmt{cc.Comm}, ce, visit)
+				}
+				walk(cc.Body, ce, visit)
+			}
+		case *ast.LabeledStmt:
+			e = walk([]ast.Stmt{x.Stmt}, e, visit)
+		case *ast.GoStmt, *ast.DeferStmt:
+			// another goroutine / a later time: nothing known there
+			var fl *ast.FuncLit
+			if g, ok := st.(*ast.GoStmt); ok {
+				fl, _ = g.Call.Fun.(*ast.FuncLit)
+			} else {
+				fl, _ = st.(*ast.DeferStmt).Call.Fun.(*ast.FuncLit)
+			}
+			if fl != nil {
+				walk(fl.Body.List, env{alias: map[string]string{}, sawCond: map[string]bool{}}, visit)
+			}
+			visit(st, e)
+		default:
+			visit(st, e)
+			if t := src(st); t == "s.loadedMu.Unlock()" {
+				e.facts = nil // what was tested about `loaded` no longer holds
+				e.sawCond["s.loaded"] = false
+			}
+			// function literals in expression position (time.AfterFunc(d, func() {…}))
+			ast.Inspect(st, func(n ast.Node) bool {
+				if fl, ok := n.(*ast.FuncLit); ok {
+					walk(fl.Body.List, env{alias: map[string]string{}, sawCond: map[string]bool{}}, visit)
+					return false
+				}
+				return true
+			})
+		}
+	}
+	return e
+}
+
+func newEnv() env { return env{alias: map[string]string{}, sawCond: map[string]bool{}} }
+
+// deleteSites classifies every delete(s.loaded, K) of a function
+func deleteSites(fd *ast.FuncDecl) (total, guarded, bare int) {
+	if fd == nil || fd.Body == nil {
+		return
+	}
+	walk(fd.Body.List, newEnv(), func(st ast.Stmt, e env) {
+		es, ok := st.(*ast.ExprStmt)
+		if !ok {
+			return
+		}
+		ce, ok := es.X.(*ast.CallExpr)
+		if !ok || src(ce.Fun) != "delete" || len(ce.Args) != 2 || src(ce.Args[0]) != "s.loaded" {
+			return
+		}
+		total++
+		key := e.norm(ce.Args[1])
+		ok = false
+		for _, f := range e.facts {
+			if !f.eq {
+				continue
+			}
+			for _, p := range [][2]string{{f.a, f.b}, {f.b, f.a}} {
+				if p[0] == "s.loaded["+key+"]" && p[1] != "nil" && key == p[1]+".modelPath" {
+					ok = true
+				}
+			}
+		}
+		if ok {
+			guarded++
+		} else if !e.sawCond["s.loaded"] {
+			bare++
+		}
+	})
+	return
+}
+
+// recheckInUse: is `X.refCount++` of useLoadedRunner reached only where X.llama != nil is implied?
+func recheckInUse(fd *ast.FuncDecl) string {
+	if fd == nil || fd.Body == nil {
+		return "unknown"
+	}
+	incs, okInc, bare := 0, 0, 0
+	retFalse := false
+	ast.Inspect(fd.Body, func(n ast.Node) bool {
+		if rs, ok := n.(*ast.ReturnStmt); ok && len(rs.Results) == 1 && src(rs.Results[0]) == "false" {
+			retFalse = true
+		}
+		return true
+	})
+	walk(fd.Body.List, newEnv(), func(st ast.Stmt, e env) {
+		x := ""
+		switch s := st.(type) {
+		case *ast.IncDecStmt:
+			if s.Tok == token.INC && strings.HasSuffix(src(s.X), ".refCount") {
+				x = strings.TrimSuffix(e.norm(s.X), ".refCount")
+			}
+		case *ast.AssignStmt:
+			if len(s.Lhs) == 1 && strings.HasSuffix(src(s.Lhs[0]), ".refCount") && (s.Tok == token.ADD_ASSIGN || s.Tok == token.ASSIGN && strings.Contains(src(s.Rhs[0]), "+")) {
+				x = strings.TrimSuffix(e.norm(s.Lhs[0]), ".refCount")
+			}
+		}
+		if x == "" {
+			return
+		}
+		incs++
+		if e.has(false, x+".llama", "nil") {
+			okInc++
+		} else if !e.sawCond[".llama"] {
+			bare++
+		}
+	})
+	switch {
+	case incs > 0 && okInc == incs && retFalse:
+		return "present"
+	case bare > 0 || !retFalse:
+		return "absent"
+	}
+	return "unknown"
+}
+
+// callerRetries: processPending `continue`s when useLoadedRunner reports false
+func callerRetries(fd *ast.FuncDecl) string {
+	calls, discarded, retried := 0, 0, 0
+	okVars := map[string]bool{}
+	ast.Inspect(fd.Body, func(n ast.Node) bool {
+		switch x := n.(type) {
+		case *ast.ExprStmt:
+			if ce, ok := x.X.(*ast.CallExpr); ok && strings.HasSuffix(src(ce.Fun), ".useLoadedRunner") {
+				discarded++
+			}
+		case *ast.AssignStmt:
+			if len(x.Rhs) == 1 && len(x.Lhs) == 1 {
+				if ce, ok := x.Rhs[0].(*ast.CallExpr); ok && strings.HasSuffix(src(ce.Fun), ".useLoadedRunner") {
+					if src(x.Lhs[0]) == "_" {
+						discarded++
+					} else {
+						okVars[src(x.Lhs[0])] = true
+					}
+				}
+			}
+		case *ast.CallExpr:
+			if strings.HasSuffix(src(x.Fun), ".useLoadedRunner") {
+				calls++
+			}
+		}
+		return true
+	})
+	isUse := func(e ast.Expr) bool {
+		e = unparen(e)
+		if ce, ok := e.(*ast.CallExpr); ok {
+			return strings.HasSuffix(src(ce.Fun), ".useLoadedRunner")
+		}
+		return okVars[src(e)]
+	}
+	endsContinue := func(b *ast.BlockStmt) bool {
+		if b == nil || len(b.List) == 0 {
+			return false
+		}
+		bs, ok := b.List[len(b.List)-1].(*ast.BranchStmt)
+		return ok && bs.Tok == token.CONTINUE
+	}
+	ast.Inspect(fd.Body, func(n ast.Node) bool {
+		is, ok := n.(*ast.IfStmt)
+		if !ok {
+			return true
+		}
+		c := unparen(is.Cond)
+		if ue, ok := c.(*ast.UnaryExpr); ok && ue.Op == token.NOT && isUse(ue.X) && endsContinue(is.Body) {
+			retried++
+		}
+		if be, ok := c.(*ast.BinaryExpr); ok && be.Op == token.EQL && isUse(be.X) && src(be.Y) == "false" && endsContinue(is.Body) {
+			retried++
+		}
+		if isUse(c) {
+			if eb, ok := is.Else.(*ast.BlockStmt); ok && endsContinue(eb) {
+				retried++
+			}
+		}
+		return true
+	})
+	switch {
+	case calls > 0 && retried > 0 && discarded == 0:
+		return "present"
+	case discarded > 0 || calls == 0:
+		return "absent"
+	}
+	return "unknown"
+}
+
+// ---------------------------------------------------------------------------------------------
+// atomicity of regions (cannot be probed: needs preemption inside a region)
+
+func commClause(fd *ast.FuncDecl, ch string) *ast.CommClause {
+	var found *ast.CommClause
+	ast.Inspect(fd.Body, func(n ast.Node) bool {
+		if cc, ok := n.(*ast.CommClause); ok && cc.Comm != nil && found == nil && strings.Contains(src(cc.Comm), "<-"+ch) {
+			if _, isSend := cc.Comm.(*ast.SendStmt); !isSend {
+				found = cc
+				return false
 			}
 		}
 		return true
@@ -121,24 +630,22 @@ func callerRetries(fd *ast.FuncDecl) bool {
 	return found
 }
 
-// expiredCaseFacts looks at the top-level statements of processCompleted's `case runner := <-s.expiredCh:` clause:
+// expiredCaseFacts looks at the top-level statements of processCompleted's `case X := <-s.expiredCh:` clause:
 //
-//	atomic   – no `runner.refMu.Unlock()` between the `runner.refCount > 0` test and `runner.unload()`
+//	atomic   – no `X.refMu.Unlock()` between the `X.refCount > 0` test and `X.unload()`
 //	           (the check and the unload are one critical section of refMu: no check-then-act window)
-//	underMu  – `runner.unload()` and every delete on s.loaded sit between `s.loadedMu.Lock()` and the
+//	underMu  – `X.unload()` and every delete on s.loaded sit between `s.loadedMu.Lock()` and the
 //	           clause's top-level `s.loadedMu.Unlock()` (a new runner cannot be inserted while the old one shuts down)
 func expiredCaseFacts(fd *ast.FuncDecl) (found, atomic, underMu bool) {
-	var body []ast.Stmt
-	ast.Inspect(fd.Body, func(n ast.Node) bool {
-		if cc, ok := n.(*ast.CommClause); ok && cc.Comm != nil && strings.Contains(src(cc.Comm), "s.expiredCh") {
-			body = cc.Body
-			return false
-		}
-		return true
-	})
-	if body == nil {
+	cc := commClause(fd, "s.expiredCh")
+	if cc == nil {
 		return false, false, false
 	}
+	x := "runner"
+	if as, ok := cc.Comm.(*ast.AssignStmt); ok && len(as.Lhs) == 1 {
+		x = src(as.Lhs[0])
+	}
+	body := cc.Body
 	idx := func(pred func(ast.Stmt) bool) []int {
 		var out []int
 		for i, st := range body {
@@ -168,10 +675,10 @@ func expiredCaseFacts(fd *ast.FuncDecl) (found, atomic, underMu bool) {
 	}
 	check := idx(func(st ast.Stmt) bool {
 		is, ok := st.(*ast.IfStmt)
-		return ok && strings.Contains(src(is.Cond), "runner.refCount")
+		return ok && strings.Contains(src(is.Cond), x+".refCount")
 	})
-	unload := idx(isCall("runner.unload()"))
-	refUnlock := idx(isCall("runner.refMu.Unlock()"))
+	unload := idx(isCall(x + ".unload()"))
+	refUnlock := idx(isCall(x + ".refMu.Unlock()"))
 	muLock := idx(isCall("s.loadedMu.Lock()"))
 	muUnlock := idx(isCall("s.loadedMu.Unlock()"))
 	deletes := idx(containsCall("delete(s.loaded"))
@@ -193,24 +700,33 @@ func expiredCaseFacts(fd *ast.FuncDecl) (found, atomic, underMu bool) {
 	return true, atomic, underMu
 }
 
-// evictFacts looks at processPending's make-room block (the statements following `runnerToExpire.refMu.Lock()`
-// in the same block):
+// evictFacts looks at processPending's make-room block: the block that locks a runner V's refMu and sets
+// `V.sessionDuration = 0` (the statements following `V.refMu.Lock()` in the same block):
 //
-//	atomic – `runnerToExpire.sessionDuration = 0`, the `runnerToExpire.refCount <= 0` test and the send on
-//	         s.expiredCh all sit between that Lock and the next top-level `runnerToExpire.refMu.Unlock()` (marking
-//	         the victim and deciding whether it is idle are one critical section: a victim whose last user finishes
-//	         in between is expired by whoever sees refCount reach 0 with sessionDuration 0)
+//	atomic – `V.sessionDuration = 0`, the `V.refCount <= 0` test and the send on s.expiredCh all sit between that
+//	         Lock and the next top-level `V.refMu.Unlock()` (marking the victim and deciding whether it is idle are
+//	         one critical section: a victim whose last user finishes in between is expired by whoever sees refCount
+//	         reach 0 with sessionDuration 0)
 func evictFacts(fd *ast.FuncDecl) (found, atomic bool) {
 	ast.Inspect(fd.Body, func(n ast.Node) bool {
 		bs, ok := n.(*ast.BlockStmt)
 		if !ok || found {
 			return !found
 		}
-		lock := -1
+		lock, v := -1, ""
 		for i, st := range bs.List {
-			if es, ok := st.(*ast.ExprStmt); ok && src(es.X) == "runnerToExpire.refMu.Lock()" {
-				lock = i
-				break
+			if es, ok := st.(*ast.ExprStmt); ok && strings.HasSuffix(src(es.X), ".refMu.Lock()") {
+				cand := strings.TrimSuffix(src(es.X), ".refMu.Lock()")
+				marks := false
+				for _, st2 := range bs.List {
+					if as, ok := st2.(*ast.AssignStmt); ok && len(as.Lhs) == 1 && src(as.Lhs[0]) == cand+".sessionDuration" {
+						marks = true
+					}
+				}
+				if marks {
+					lock, v = i, cand
+					break
+				}
 			}
 		}
 		if lock < 0 {
@@ -219,7 +735,7 @@ func evictFacts(fd *ast.FuncDecl) (found, atomic bool) {
 		found = true
 		unlock := -1
 		for i := lock + 1; i < len(bs.List); i++ {
-			if es, ok := bs.List[i].(*ast.ExprStmt); ok && src(es.X) == "runnerToExpire.refMu.Unlock()" {
+			if es, ok := bs.List[i].(*ast.ExprStmt); ok && src(es.X) == v+".refMu.Unlock()" {
 				unlock = i
 				break
 			}
@@ -230,12 +746,12 @@ func evictFacts(fd *ast.FuncDecl) (found, atomic bool) {
 		mark, test, send := false, false, false
 		for _, st := range bs.List[lock+1 : unlock] {
 			t := src(st)
-			if as, ok := st.(*ast.AssignStmt); ok && len(as.Lhs) == 1 && src(as.Lhs[0]) == "runnerToExpire.sessionDuration" && src(as.Rhs[0]) == "0" {
+			if as, ok := st.(*ast.AssignStmt); ok && len(as.Lhs) == 1 && src(as.Lhs[0]) == v+".sessionDuration" && src(as.Rhs[0]) == "0" {
 				mark = true
 			}
-			if is, ok := st.(*ast.IfStmt); ok && strings.Contains(src(is.Cond), "runnerToExpire.refCount") {
+			if is, ok := st.(*ast.IfStmt); ok && strings.Contains(src(is.Cond), v+".refCount") {
 				test = true
-				if strings.Contains(t, "s.expiredCh <- runnerToExpire") {
+				if strings.Contains(t, "s.expiredCh <- "+v) {
 					send = true
 				}
 			}
@@ -247,7 +763,7 @@ func evictFacts(fd *ast.FuncDecl) (found, atomic bool) {
 				continue
 			}
 			t := src(st)
-			if strings.Contains(t, "s.expiredCh <- runnerToExpire") || strings.Contains(t, "runnerToExpire.refCount") && !strings.Contains(t, "slog.") {
+			if strings.Contains(t, "s.expiredCh <- "+v) || strings.Contains(t, v+".refCount") && !strings.Contains(t, "slog.") {
 				outside++
 			}
 		}
@@ -258,9 +774,8 @@ func evictFacts(fd *ast.FuncDecl) (found, atomic bool) {
 }
 
 // enqueueFacts: GetRunner hands the request to the pending loop with a NON-BLOCKING send
-// (`select { case s.pendingReqCh <- req: default: req.errCh <- ErrMaxQueue }`) and nowhere else
-func enqueueFacts(f *ast.File) (nonBlocking bool) {
-	fd := funcDecl(f, "GetRunner")
+// (`select { case s.pendingReqCh <- req: default: … ErrMaxQueue }`) and nowhere else
+func enqueueFacts(fd *ast.FuncDecl) (nonBlocking bool) {
 	if fd == nil {
 		return false
 	}
@@ -292,12 +807,14 @@ func enqueueFacts(f *ast.File) (nonBlocking bool) {
 
 // waitUnloadFacts: the `case <-s.unloadedCh:` arms of processPending only log and continue (they do not touch
 // s.loaded or a runner: the entry of a runner that is still busy must stay)
-func waitUnloadFacts(fd *ast.FuncDecl) (pure bool) {
+func waitUnloadFacts(fd *ast.FuncDecl) (pure bool, arms int) {
 	pure = true
-	n := 0
 	ast.Inspect(fd.Body, func(m ast.Node) bool {
-		if cc, ok := m.(*ast.CommClause); ok && cc.Comm != nil && strings.Contains(src(cc.Comm), "s.unloadedCh") {
-			n++
+		if cc, ok := m.(*ast.CommClause); ok && cc.Comm != nil && strings.Contains(src(cc.Comm), "<-s.unloadedCh") {
+			if _, isSend := cc.Comm.(*ast.SendStmt); isSend {
+				return true
+			}
+			arms++
 			for _, st := range cc.Body {
 				t := src(st)
 				if bs, ok := st.(*ast.BranchStmt); ok && bs.Tok == token.CONTINUE {
@@ -311,7 +828,41 @@ func waitUnloadFacts(fd *ast.FuncDecl) (pure bool) {
 		}
 		return true
 	})
-	return pure && n >= 1
+	return pure && arms >= 1, arms
+}
+
+// chanFacts: how the four scheduler channels are made in InitScheduler (`make(chan T, <cap expr>)`), and every send
+// site of the three event channels with the mutexes (textually) held there, for the model's bounded-channel /
+// lock-order layer (Model/SchedChan.lean)
+func chanCaps(fd *ast.FuncDecl) map[string]string {
+	out := map[string]string{}
+	if fd == nil {
+		return out
+	}
+	alias := map[string]string{}
+	ast.Inspect(fd.Body, func(n ast.Node) bool {
+		switch x := n.(type) {
+		case *ast.AssignStmt:
+			if len(x.Lhs) == 1 && len(x.Rhs) == 1 && x.Tok == token.DEFINE {
+				alias[src(x.Lhs[0])] = src(x.Rhs[0])
+			}
+		case *ast.KeyValueExpr:
+			if ce, ok := x.Value.(*ast.CallExpr); ok && src(ce.Fun) == "make" && len(ce.Args) >= 1 {
+				if _, isChan := ce.Args[0].(*ast.ChanType); isChan {
+					c := "0"
+					if len(ce.Args) == 2 {
+						c = src(ce.Args[1])
+						if a, ok := alias[c]; ok {
+							c = a
+						}
+					}
+					out[src(x.Key)] = c
+				}
+			}
+		}
+		return true
+	})
+	return out
 }
 
 func main() {
@@ -320,28 +871,76 @@ func main() {
 		fmt.Println("error", err)
 		os.Exit(1)
 	}
-	pc, ul, pp := funcDecl(f, "processCompleted"), funcDecl(f, "useLoadedRunner"), funcDecl(f, "processPending")
+	for _, d := range f.Decls {
+		if fd, ok := d.(*ast.FuncDecl); ok {
+			funcs[fd.Name.Name] = fd
+		}
+	}
+	pc, ul, pp := normalise(funcs["processCompleted"]), normalise(funcs["useLoadedRunner"]), normalise(funcs["processPending"])
 	if pc == nil || ul == nil || pp == nil {
 		fmt.Println("error anchors-not-found")
 		os.Exit(1)
 	}
-	total, guarded := guardedDeletes(pc)
-	fmt.Printf("deletes=%d guardedDeletes=%d\n", total, guarded)
-	fmt.Printf("guardDelete=%v\n", total > 0 && total == guarded)
-	fmt.Printf("recheckGrant=%v\n", recheckInUse(ul) && callerRetries(pp))
-	// other delete sites of s.loaded anywhere else in the file would escape the model
+	total, guarded, bare := deleteSites(pc)
+	// delete sites of s.loaded in functions that are not part of processCompleted (not inlined into it) would escape the model
 	others := 0
-	for _, d := range f.Decls {
-		if fd, ok := d.(*ast.FuncDecl); ok && fd.Name.Name != "processCompleted" && fd.Body != nil {
-			t, _ := guardedDeletes(fd)
-			others += t
-		}
+	var names []string
+	for n := range funcs {
+		names = append(names, n)
 	}
+	sort.Strings(names)
+	for _, n := range names {
+		if n == "processCompleted" || absorbed[n] {
+			continue
+		}
+		t, g, b := deleteSites(normalise(funcs[n]))
+		others += t
+		total, guarded, bare = total+t, guarded+g, bare+b
+	}
+	gd := "unknown"
+	switch {
+	case total > 0 && guarded == total:
+		gd = "guarded"
+	case bare > 0:
+		gd = "unguarded"
+	}
+	fmt.Printf("deletes=%d guardedDeletes=%d bareDeletes=%d\n", total, guarded, bare)
+	fmt.Printf("guardDeleteAst=%s\n", gd)
+	ru, cr := recheckInUse(ul), callerRetries(pp)
+	rg := "unknown"
+	switch {
+	case ru == "present" && cr == "present":
+		rg = "present"
+	case ru == "absent" || cr == "absent":
+		rg = "absent"
+	}
+	fmt.Printf("recheckInUse=%s callerRetries=%s\n", ru, cr)
+	fmt.Printf("recheckGrantAst=%s\n", rg)
 	fmt.Printf("deletesElsewhere=%d\n", others)
 	found, atomic, underMu := expiredCaseFacts(pc)
 	fmt.Printf("expiredCaseFound=%v\nexpiredAtomic=%v\nunloadUnderLoadedMu=%v\n", found, atomic, underMu)
 	ef, ea := evictFacts(pp)
 	fmt.Printf("evictBlockFound=%v\nevictAtomic=%v\n", ef, ea)
-	fmt.Printf("enqueueNonBlocking=%v\n", enqueueFacts(f))
-	fmt.Printf("waitUnloadPure=%v\n", waitUnloadFacts(pp))
+	fmt.Printf("enqueueNonBlocking=%v\n", enqueueFacts(normalise(funcs["GetRunner"])))
+	wp, arms := waitUnloadFacts(pp)
+	fmt.Printf("waitUnloadPure=%v\nunloadedChRecvArms=%d\n", wp, arms)
+	caps := chanCaps(funcs["InitScheduler"])
+	for _, c := range []string{"pendingReqCh", "finishedReqCh", "expiredCh", "unloadedCh"} {
+		v, ok := caps[c]
+		if !ok {
+			v = "?"
+		}
+		fmt.Printf("cap_%s=%s\n", c, strings.Map(func(r rune) rune {
+			if r >= 'a' && r <= 'z' || r >= 'A' && r <= 'Z' || r >= '0' && r <= '9' {
+				return r
+			}
+			return -1
+		}, v))
+	}
+	var ab []string
+	for n := range absorbed {
+		ab = append(ab, n)
+	}
+	sort.Strings(ab)
+	fmt.Printf("inlinedHelpers=%s\n", strings.Join(ab, ","))
 }
